@@ -98,6 +98,22 @@ def execCodec (op : String) (a : List String) : String :=
       | some na => s!"ok {toHexField na.encode} {nameAddrFields na}"
   | _, _ => "bad-op"
 
+/-- stream `cfg`: configuration handling (main.go `toKeepNextHopRoute`, `createPreConfigHostResolver`) -/
+def execCfg (op : String) (a : List String) : String :=
+  match op, a with
+  | "keep", [w] =>
+    let l := toLower (unhex w)
+    if [str "true", str "yes", str "1", str "on", str "t", str "y"].contains l then "true" else "false"
+  | "hosts", _ :: name :: pairs =>
+    -- the table is a map filled in order: the LAST entry for a name wins (the service's section comes after the global one)
+    let rec last (acc : Option Bytes) : List String → Option Bytes
+      | n :: ip :: rest => last (if unhex n == unhex name then some (unhex ip) else acc) rest
+      | _ => acc
+    match last none pairs with
+    | some ip => s!"ip {toHexField ip}"
+    | none => "none"
+  | _, _ => "bad-op"
+
 def execMsg (op : String) (a : List String) : String :=
   match op, a with
   | "parse", [s] => match parseMessage cmap (unhex s) with
